@@ -179,7 +179,7 @@ def _gen_options(rng, grid):
     o = {"threshold": rng.choice([0.5, 0.5, 0.25, 0.9, -1.0, 2.0, "auto", "extrema", "mean", "otsu"]),
          "minimal_radius": rng.choice([0, 0, 0.5, 2.0, -1, -math.inf if False else 0])}
     if rng.random() < 0.25:
-        o["interface_width"] = rng.choice([0.0, 0.5, 1.0, 3.0])
+        o["interface_width"] = rng.choice([0.0, 0.5, 1.0, 3.0, 20.0])  # (also wider than the grid)
     modes = 0
     if dim in (2, 3) and rng.random() < 0.35:
         modes = rng.choice([1, 2, 3, 4])
